@@ -1374,7 +1374,9 @@ fn build_moov_box(
     let video_duration_ms =
         (video_duration_media * MOVIE_TIMESCALE as u64 / MEDIA_TIMESCALE as u64) as u32;
 
-    let mvhd_payload = build_mvhd_payload(video_duration_ms);
+    // next_track_ID must be larger than every track ID in use (video = 1, audio = 2).
+    let next_track_id = if audio.is_some() { 3 } else { 2 };
+    let mvhd_payload = build_mvhd_payload(video_duration_ms, next_track_id);
     let mvhd_box = build_box(b"mvhd", &mvhd_payload);
     let trak_box = build_trak_box(video, video_tables, video_config, metadata);
 
@@ -2303,7 +2305,7 @@ fn build_ftyp_box() -> Vec<u8> {
     build_box(b"ftyp", &payload)
 }
 
-fn build_mvhd_payload(duration_ms: u32) -> Vec<u8> {
+fn build_mvhd_payload(duration_ms: u32, next_track_id: u32) -> Vec<u8> {
     let mut payload = Vec::new();
     payload.extend_from_slice(&0u32.to_be_bytes()); // version + flags
     payload.extend_from_slice(&0u32.to_be_bytes()); // creation_time
@@ -2331,7 +2333,7 @@ fn build_mvhd_payload(duration_ms: u32) -> Vec<u8> {
     for _ in 0..6 {
         payload.extend_from_slice(&0u32.to_be_bytes()); // pre_defined
     }
-    payload.extend_from_slice(&2u32.to_be_bytes()); // next_track_ID
+    payload.extend_from_slice(&next_track_id.to_be_bytes()); // next_track_ID
     payload
 }
 
